@@ -248,6 +248,20 @@ _METHODS = {
     'norm': _reduce('norm'), 'std': _reduce('std'), 'var': _reduce('var'), 'any': _reduce('any'),
     'all': _reduce('all'), 'item': _reduce('item'),
     'unsqueeze': _unsqueeze, 'squeeze': _squeeze, 'expand_as': _expand_as,
+    'square': lambda libs, t: libs.binop(operator.pow, t, 2),
+    'rsqrt': lambda libs, t: libs.binop(operator.pow, t, -0.5),
+    'reciprocal': lambda libs, t: libs.binop(operator.pow, t, -1),
+    'neg': lambda libs, t: libs.binop(operator.mul, t, -1),
+    'add': lambda libs, t, o, alpha=1: libs.binop(operator.add, t, o if alpha == 1 else libs.binop(operator.mul, o, alpha)),
+    'sub': lambda libs, t, o, alpha=1: libs.binop(operator.sub, t, o if alpha == 1 else libs.binop(operator.mul, o, alpha)),
+    'mul': lambda libs, t, o: libs.binop(operator.mul, t, o),
+    'div': lambda libs, t, o: libs.binop(operator.truediv, t, o),
+    'true_divide': lambda libs, t, o: libs.binop(operator.truediv, t, o),
+    'swapaxes': lambda libs, t, a, b: ops.transpose(t, a, b),
+    'swapdims': lambda libs, t, a, b: ops.transpose(t, a, b),
+    'view_as': lambda libs, t, o: _view(libs, t, *list(o.shape)),
+    'reshape_as': lambda libs, t, o: _reshape(libs, t, *list(o.shape)),
+    'select': lambda libs, t, dim, index: t[tuple([slice(None)] * (dim % t.ndim) + [index])],
     'is_contiguous': lambda libs, t: t.contig,
     'movedim': lambda libs, t, src, dst: libs._movedim(t, src, dst),
     'flatten': lambda libs, t, start_dim=0, end_dim=-1: libs._flatten(t, start_dim, end_dim),
